@@ -108,7 +108,9 @@ theorem run_fillerToks (stack : List Str) (evs : List Ev) (n : Nat) (ts : List T
   | 0 => simp [fillerToks, fillerEvs, run_cons, atTop, step, nl]
   | 1 => simp [fillerToks, fillerEvs, run_cons, atTop, step, nl, h0]
   | 2 => simp [fillerToks, fillerEvs, run_cons, atTop, step, nl]
-  | _ + 3 => simp [fillerToks, fillerEvs]
+  | 3 => simp [fillerToks, fillerEvs]
+  | 4 => simp [fillerToks, fillerEvs, run_cons, atTop, step, nl, h0]
+  | _ + 5 => simp [fillerToks, fillerEvs]
 
 def bodyEvs (ds : List DocEntry) : List Ev := ds.flatMap (fun e => Ev.entry e.toEntry :: fillerEvs e.filler)
 
@@ -149,7 +151,7 @@ theorem scanToks_docToks (d : Doc) : scanToks (docToks d) false = docTrace d := 
 
 /-! ### the token sequence of a document is well formed (so the lexer reads its text back) -/
 
-/-- character data of the subset: any legal characters except `<`, `&`, `]` -/
+/-- texts of entries: any legal characters except `<`, `&`, `]` (entities occur between entries only) -/
 def subsetText (t : Str) : Prop := ∀ c ∈ t, textChar c = true
 
 instance (t : Str) : Decidable (subsetText t) := by unfold subsetText; infer_instance
@@ -176,7 +178,7 @@ theorem wfToks_elemToks (tag : String) (text : Str) (rest : List Tok) (hn : WFNa
     exact ⟨⟨hn, by simp⟩, by simp [isChars], hn, by simp [isChars], hnl⟩
   · have hne : text.isEmpty = false := by cases text <;> simp_all
     simp only [elemToks, hne, Bool.false_eq_true, if_false, List.cons_append, List.nil_append]
-    exact ⟨⟨hn, by simp⟩, by simp [isChars], ⟨h, ht⟩, by simp [isChars], hn, by simp [isChars], hnl⟩
+    exact ⟨⟨hn, by simp⟩, by simp [isChars], ⟨h, validText_of_textChars _ ht⟩, by simp [isChars], hn, by simp [isChars], hnl⟩
 
 theorem wfToks_elems (tag : String) (hn : WFName (s tag)) : ∀ (texts : List Str) (rest : List Tok),
     (∀ t ∈ texts, subsetText t) → WFToks rest → MarkupFirst rest →
@@ -230,7 +232,7 @@ theorem wfToks_entryBody (d : DocEntry) (h : WFDocEntry d) (rest : List Tok) (hr
       exact ⟨⟨wfName_lit.2.2.1, wfAttrs_seq d⟩, by simp [isChars], htail⟩
     · have hne : d.seq.isEmpty = false := by cases hd : d.seq <;> simp_all
       simp only [hne, Bool.false_eq_true, if_false, List.cons_append, List.nil_append]
-      exact ⟨⟨wfName_lit.2.2.1, wfAttrs_seq d⟩, by simp [isChars], ⟨he, hseq⟩, by simp [isChars], htail⟩
+      exact ⟨⟨wfName_lit.2.2.1, wfAttrs_seq d⟩, by simp [isChars], ⟨he, validText_of_textChars _ hseq⟩, by simp [isChars], htail⟩
   have hseqFirst : MarkupFirst (.start (s "sequence") (seqAttrs d) false :: (if d.seq.isEmpty then [] else [.chars d.seq]) ++
       [.close (s "sequence"), nl, .close (s "entry")] ++ rest) := by simp [MarkupFirst, isChars]
   -- the optional other children
@@ -260,7 +262,9 @@ theorem wfToks_filler (n : Nat) (rest : List Tok) (hr : WFToks rest) (hm : Marku
   | 0 => exact wfToks_append _ _ (by decide) hr (.inr hm)
   | 1 => exact wfToks_append _ _ (by decide) hr (.inr hm)
   | 2 => exact wfToks_append _ _ (by decide) hr (.inr hm)
-  | _ + 3 => simpa [fillerToks] using hr
+  | 3 => simpa [fillerToks] using hr
+  | 4 => exact wfToks_append _ _ (by decide) hr (.inr hm)
+  | _ + 5 => simpa [fillerToks] using hr
 
 theorem wfToks_entries : ∀ (ds : List DocEntry) (rest : List Tok), (∀ e ∈ ds, WFDocEntry e) → WFToks rest →
     MarkupFirst rest → WFToks (entriesToks ds ++ rest) ∧ MarkupFirst (entriesToks ds ++ rest)
